@@ -695,6 +695,12 @@ B('g14l_constant_instead_of_default', ['C14'], 'R14.l',
    "        else:\n"
    "            mimetype = 'text/html'\n"))
 B('g14l_no_guess', ['C14'], 'R14.l', (ST, _GUESS, ""))
+# the guess step written as a choice expression: ``a or b`` / ``x if c else y`` is one of its arms
+T('g14l_guess_as_or', ['C14'], (ST, _GUESS, "    mimetype = mimetype or mimetypes.guess_type(path)[0]\n"))
+T('g14l_guess_as_ifexp', ['C14'], (ST, _GUESS, "    mimetype = mimetype if mimetype else mimetypes.guess_type(path)[0]\n"))
+B('g14l_or_constant_arm', ['C14'], 'R14.l', (ST, _GUESS, "    mimetype = mimetype or mimetypes.guess_type(path)[0] or 'text/html'\n"))
+B('g14l_or_without_guess', ['C14'], 'R14.l', (ST, _GUESS, "    mimetype = mimetype or None\n"))
+B('g14h_or_guess_for_other_name', ['C14'], 'R14.h', (ST, _GUESS, "    mimetype = mimetype or mimetypes.guess_type('index.html')[0]\n"))
 B('g14l_binary_test_on_path', ['C14'], 'R14.l',
   (ST, "        is_binary = is_binary_string(peeked)\n", "        is_binary = is_binary_string(path.encode('utf-8'))\n"))
 B('g14h_guess_for_other_name', ['C14'], 'R14.h',
